@@ -230,15 +230,6 @@ theorem filterMap_splitLines_body (d : List DLine) (hd : ∀ l ∈ d, l.localOK)
   · simp [h, lineDependency_nil]
   · simp [h, lineDependency_nil]
 
-/-- L1 + L2: parsing a rendered diagram is aggregating its per-line contributions -/
-theorem pumlParse_diagramText (n1 n2 : Str) (d : List DLine) (hd : ∀ l ∈ d, l.localOK)
-    (hn : isInfix tagEnd n2 = false) :
-    pumlParse (diagramText n1 d n2) = .ok (pumlAgg (d.flatMap DLine.mods) (d.filterMap DLine.raw)) := by
-  rw [pumlParse_eq, pumlBody_diagramText n1 n2 d hd hn]
-  simp only
-  rw [flatMap_splitLines_body d hd, filterMap_splitLines_body d hd, flatMap_lineModules d hd,
-    filterMap_lineDependency d hd]
-
 /-! ## the alias table and the meaning of a diagram, unpacked -/
 
 theorem aliasTable_cons (l : DLine) (d : List DLine) :
@@ -439,6 +430,109 @@ theorem mem_mods_name (d : List DLine) (x : Str) :
     · exact ⟨⟨x, al⟩, ⟨_, hl, by simp [DLine.mods]⟩, rfl⟩
     · exact ⟨⟨x, none⟩, ⟨_, hl, by simp [DLine.mods, hr, DRef.inlineModule]⟩, rfl⟩
 
+/-- the alias check of the repaired parser passes on diagrams whose alias table is functional -/
+theorem aliasesConsistent_mods (d : List DLine) (hf : functionalTbl (aliasTable d) = true) :
+    aliasesConsistent (d.flatMap DLine.mods) = true := by
+  rw [aliasesConsistent_eq_functionalTbl, aliasTable_mods]; exact hf
+
+theorem aliasesConsistent_of_diagramWF (d : List DLine) (hwf : diagramWF d = true) :
+    aliasesConsistent (d.flatMap DLine.mods) = true :=
+  aliasesConsistent_mods d ((diagramWF_iff d).1 hwf).2.2
+
+/-- L1 + L2: parsing a rendered diagram is the alias check followed by aggregating its per-line contributions -/
+theorem pumlParse_diagramText_gen (n1 n2 : Str) (d : List DLine) (hd : ∀ l ∈ d, l.localOK)
+    (hn : isInfix tagEnd n2 = false) :
+    pumlParse (diagramText n1 d n2) =
+      if aliasesConsistent (d.flatMap DLine.mods) = true then
+        .ok (pumlAgg (d.flatMap DLine.mods) (d.filterMap DLine.raw))
+      else .error .pumlParsingError := by
+  rw [pumlParse_eq, pumlBody_diagramText n1 n2 d hd hn]
+  simp only
+  rw [flatMap_splitLines_body d hd, filterMap_splitLines_body d hd, flatMap_lineModules d hd,
+    filterMap_lineDependency d hd]
+
+/-- … and on a diagram in which every alias stands for one component the check passes -/
+theorem pumlParse_diagramText (n1 n2 : Str) (d : List DLine) (hd : ∀ l ∈ d, l.localOK)
+    (hf : functionalTbl (aliasTable d) = true) (hn : isInfix tagEnd n2 = false) :
+    pumlParse (diagramText n1 d n2) = .ok (pumlAgg (d.flatMap DLine.mods) (d.filterMap DLine.raw)) := by
+  rw [pumlParse_diagramText_gen n1 n2 d hd hn, if_pos (aliasesConsistent_mods d hf)]
+
+/-- two declaration lines that give one alias to different names: the text is rejected -/
+theorem pumlParse_conflict (n1 n2 : Str) (d : List DLine) (hd : ∀ l ∈ d, l.localOK)
+    (hn : isInfix tagEnd n2 = false) (f1 f2 : DeclForm) (a x y : Str)
+    (h1 : DLine.decl f1 x (some a) ∈ d) (h2 : DLine.decl f2 y (some a) ∈ d) (hxy : x ≠ y) :
+    pumlParse (diagramText n1 d n2) = .error .pumlParsingError := by
+  rw [pumlParse_diagramText_gen n1 n2 d hd hn]
+  have : aliasesConsistent (d.flatMap DLine.mods) = false :=
+    aliasesConsistent_false_of_conflict _ ⟨x, some a⟩ ⟨y, some a⟩ a
+      (List.mem_flatMap.2 ⟨_, h1, by simp [DLine.mods]⟩) (List.mem_flatMap.2 ⟨_, h2, by simp [DLine.mods]⟩) rfl rfl hxy
+  rw [this]; rfl
+
+/-- local well-formedness needs only the per-line conditions, not functionality of the alias table -/
+theorem localOK_of_ok (d : List DLine) (hok : ∀ l ∈ d, l.ok (aliasTable d) = true) : ∀ l ∈ d, l.localOK := by
+  have hal : ∀ a n, (a, n) ∈ aliasTable d → NameLike a := by
+    intro a n h
+    obtain ⟨f, hf⟩ := (mem_aliasTable d a n).1 h
+    have := hok _ hf
+    simp only [DLine.ok, Bool.and_eq_true] at this
+    exact nameOK_nameLike (wordOK_nameOK this.2.1)
+  have href : ∀ r : DRef, r.ok (aliasTable d) = true → NameLike r.written := by
+    intro r h
+    cases r with
+    | bare n => exact nameOK_nameLike h
+    | bracketed n => exact nameOK_nameLike h
+    | viaAlias a =>
+      simp only [DRef.ok, List.any_eq_true, beq_iff_eq] at h
+      obtain ⟨p, hp, rfl⟩ := h
+      exact hal p.1 p.2 hp
+  intro l hl
+  have h := hok l hl
+  cases l with
+  | decl f n al =>
+    simp only [DLine.ok, Bool.and_eq_true] at h
+    refine ⟨nameOK_nameLike h.1, ?_⟩
+    rintro a rfl
+    simp only [Bool.and_eq_true, bne_iff_ne, ne_eq] at h
+    exact ⟨nameOK_nameLike (wordOK_nameOK h.2.1), h.2.2⟩
+  | arrow f a b =>
+    simp only [DLine.ok, Bool.and_eq_true] at h
+    exact ⟨h.1.1, href a h.1.2, href b h.2⟩
+
+/-- ANY text whose tags are fine: two lines of the body that declare one alias for different names → rejected -/
+theorem pumlParse_conflict_raw (content body l1 l2 a x y : Str)
+    (hb : pumlBody (pyStrip content) = .ok body) (h1 : l1 ∈ splitLines body) (h2 : l2 ∈ splitLines body)
+    (hm1 : ⟨x, some a⟩ ∈ lineModules l1) (hm2 : ⟨y, some a⟩ ∈ lineModules l2) (hxy : x ≠ y) :
+    pumlParse content = .error .pumlParsingError := by
+  rw [pumlParse_eq, hb]
+  have : aliasesConsistent ((splitLines body).flatMap lineModules) = false :=
+    aliasesConsistent_false_of_conflict _ ⟨x, some a⟩ ⟨y, some a⟩ a
+      (List.mem_flatMap.2 ⟨_, h1, hm1⟩) (List.mem_flatMap.2 ⟨_, h2, hm2⟩) rfl rfl hxy
+  simp only [this, Bool.false_eq_true, if_false]
+
+/-- … and only then (given that the tags are fine) -/
+theorem pumlParse_error_iff (content body : Str) (hb : pumlBody (pyStrip content) = .ok body) :
+    pumlParse content = .error .pumlParsingError ↔
+      ∃ l1 ∈ splitLines body, ∃ l2 ∈ splitLines body, ∃ a x y,
+        ⟨x, some a⟩ ∈ lineModules l1 ∧ ⟨y, some a⟩ ∈ lineModules l2 ∧ x ≠ y := by
+  constructor
+  · intro h
+    rw [pumlParse_eq, hb] at h
+    simp only at h
+    by_cases hc : aliasesConsistent ((splitLines body).flatMap lineModules) = true
+    · rw [if_pos hc] at h; cases h
+    · have hn : ¬ ∀ m1 ∈ (splitLines body).flatMap lineModules, ∀ m2 ∈ (splitLines body).flatMap lineModules,
+          ∀ a, m1.alias = some a → m2.alias = some a → m1.name = m2.name :=
+        fun hall => hc ((aliasesConsistent_iff_forall _).2 hall)
+      simp only [Classical.not_forall] at hn
+      obtain ⟨m1, hm1, m2, hm2, a, ha1, ha2, hne⟩ := hn
+      obtain ⟨l1, hl1, hml1⟩ := List.mem_flatMap.1 hm1
+      obtain ⟨l2, hl2, hml2⟩ := List.mem_flatMap.1 hm2
+      refine ⟨l1, hl1, l2, hl2, a, m1.name, m2.name, ?_, ?_, hne⟩
+      · rw [← ha1]; exact hml1
+      · rw [← ha2]; exact hml2
+  · rintro ⟨l1, h1, l2, h2, a, x, y, hm1, hm2, hxy⟩
+    exact pumlParse_conflict_raw content body l1 l2 a x y hb h1 h2 hm1 hm2 hxy
+
 /-! ## the round trip -/
 
 theorem roundtrip_lemma (n1 n2 : Str) (d : List DLine) (hwf : diagramWF d = true)
@@ -448,7 +542,7 @@ theorem roundtrip_lemma (n1 n2 : Str) (d : List DLine) (hwf : diagramWF d = true
       (∀ x y, y ∈ p.depsOf x ↔ (x, y) ∈ diagramArrows d) ∧
       (p.dependencies.map (·.1)).Nodup ∧ (∀ kv ∈ p.dependencies, kv.2.Nodup ∧ kv.2 ≠ []) := by
   have w := WF.of d hwf
-  refine ⟨_, pumlParse_diagramText n1 n2 d w.localOK hn, ?_⟩
+  refine ⟨_, pumlParse_diagramText n1 n2 d w.localOK w.functional hn, ?_⟩
   have hspec := pumlAgg_spec (d.flatMap DLine.mods) (d.filterMap DLine.raw)
   simp only [aliasTable_mods] at hspec
   obtain ⟨hok, hnodup, hdeps, hmods⟩ := hspec
@@ -487,10 +581,21 @@ theorem roundtrip_lemma (n1 n2 : Str) (d : List DLine) (hwf : diagramWF d = true
 /-- evaluation of `pumlParse` on a concrete text without running the tag search in the kernel -/
 theorem pumlParse_concrete (text x body n2 : Str)
     (h1 : pyStrip text = x ++ (tagStart ++ (body ++ (tagEnd ++ n2))))
-    (hb : isInfix tagStart (tagStart ++ body).tail = false) (hn : isInfix tagEnd n2 = false) (hne : body ≠ []) :
+    (hb : isInfix tagStart (tagStart ++ body).tail = false) (hn : isInfix tagEnd n2 = false) (hne : body ≠ [])
+    (hc : aliasesConsistent ((splitLines body).flatMap lineModules) = true) :
     pumlParse text =
       .ok (pumlAgg ((splitLines body).flatMap lineModules) ((splitLines body).filterMap lineDependency)) := by
   rw [pumlParse_eq, h1, pumlBody_block_gen x body n2 hb hn hne]
+  simp only [hc, if_true]
+
+/-- … and of the rejection of a text whose body declares one alias for two components -/
+theorem pumlParse_concrete_conflict (text x body n2 : Str)
+    (h1 : pyStrip text = x ++ (tagStart ++ (body ++ (tagEnd ++ n2))))
+    (hb : isInfix tagStart (tagStart ++ body).tail = false) (hn : isInfix tagEnd n2 = false) (hne : body ≠ [])
+    (hc : aliasesConsistent ((splitLines body).flatMap lineModules) = false) :
+    pumlParse text = .error .pumlParsingError := by
+  rw [pumlParse_eq, h1, pumlBody_block_gen x body n2 hb hn hne]
+  simp only [hc, Bool.false_eq_true, if_false]
 
 /-! ## L4: no tags, no diagram -/
 
